@@ -280,7 +280,6 @@ pub fn fixture_class(i: usize) -> SClass {
 
 pub struct Fixture {
 	pub models: Vec<SClass>,
-	pub bytes: Vec<Vec<u8>>,
 	pub jar: ParsedJar<ClassRepr, Vec<u8>>,
 	/// class name → declared (name, descriptor) pairs
 	pub methods: BTreeMap<String, BTreeSet<(String, String)>>,
@@ -331,15 +330,11 @@ impl Fixture {
 		}
 		let (name, data) = &others[3];
 		put(&mut jar, name, JarEntryEnum::Other(data.clone().unwrap_or_default()));
-		Fixture { models, bytes, jar, methods, others }
+		Fixture { models, jar, methods, others }
 	}
 
 	pub fn present(&self, class: &str) -> bool {
 		self.methods.contains_key(class)
-	}
-
-	pub fn model(&self, class: &str) -> Option<&SClass> {
-		self.models.iter().find(|m| m.this_class.to_string_lossy() == class)
 	}
 
 	/// the same jar as a real zip archive (stored entries)
